@@ -652,8 +652,12 @@ func p440compareLocalElem(a, b string) int {
 		return -1
 	}
 	if aDigits {
-		an, _ := strconv.ParseUint(a, 10, 64)
-		bn, _ := strconv.ParseUint(b, 10, 64)
+		an, aerr := strconv.ParseUint(a, 10, 64)
+		bn, berr := strconv.ParseUint(b, 10, 64)
+		if aerr != nil || berr != nil {
+			// Too large for a uint64: still numbers.
+			return compareDigits(a, b)
+		}
 		return sgnu64(an, bn)
 	}
 	return sgnStr(strings.ToLower(a), strings.ToLower(b))
